@@ -1487,6 +1487,11 @@ class Interp:
       if h is not None:
         return h(self, a, b)
       return False
+    if (isinstance(a, SObj) and 'id' in a.ghost and (not isinstance(b, SV) or isinstance(b, SBool))) or \
+        (isinstance(b, SObj) and 'id' in b.ghost and (not isinstance(a, SV) or isinstance(a, SBool))):
+      h = self.policy.handlers.get(('identical_mixed',))
+      if h is not None:
+        return h(self, a, b)
     if isinstance(a, SV) or isinstance(b, SV):
       if isinstance(a, SBool) and isinstance(b, (bool, SBool)):
         return simplify_concrete(SBool(a.z == self.to_z3(b)))
